@@ -1,5 +1,6 @@
 import DadiVerif.Model.Proto
 import DadiVerif.Model.Projection
+import DadiVerif.Model.ProjLowPass
 /- driver ops for projection (C08)
 
    projrow m n i                      -> ok w0,…,wm            row `_cached_projection(m, n, i)`
@@ -11,6 +12,8 @@ import DadiVerif.Model.Projection
    mirror folded data mask            -> ok <nd data> <nd mask> <folded>     `Numerics.reverse_array` (every axis reversed)
    total folded data mask             -> ok <rat>                            `fs.data.sum()` (raw data)
    ptotal folded ns data mask         -> ok <rat> | err dim | err up         raw total of `project(ns)`
+   lpaxes data mats                   -> ok <nd data> | err shape | err mats   the per-population loop of LowPass `lowpass_func`
+                                         (generated `loopVisits` / `loopBody`) on the array `data`; mats = P0;H0;P1;H1;… (2-D nd each)
    masks are sent as nd arrays of 0/1 -/
 namespace DadiVerif.Driver.Projection
 open DadiVerif DadiVerif.Proto
@@ -74,6 +77,18 @@ def handle (toks : List String) : Option String :=
       match S.project ns with
       | .ok R => some ("ok " ++ showRat R.total)
       | .error e => some ("err " ++ e)
+  | ["lpaxes", data, mats] => do
+      let T ← parseND data
+      let ms ← (mats.splitOn ";").mapM parseND
+      let ms ← ms.mapM LPAx.matOfND
+      let d := T.shape.length
+      let w := Gen.ProjLP.loopMatLists.length
+      if ms.length ≠ w * d then some "err mats"
+      else
+        let M : Nat → Nat → LPAx.Mat := fun k j => ms.getD (w * k + j) ⟨0, 0, fun _ _ => 0⟩
+        match LPAx.runLoopTab d M (LPAx.ofND T) with
+        | some t => some ("ok " ++ showND (LPAx.toND d t))
+        | none => some "err shape"
   | _ => none
 
 end DadiVerif.Driver.Projection
